@@ -708,7 +708,10 @@ pub fn execute_and_judge(t: &mut Tape, mix: &Mix, accounts: &[Account], nodes: &
         out.harness_notes.push("step cap reached".into());
     }
     if tmax >= tmin {
-        out.sim_ns += tmax - tmin + 1;
+        // simulated time covered by this run: from the earliest to the latest server-clock reading,
+        // a span beyond a week (clocks set years or millennia apart) counted as one week so that a
+        // few such runs do not swamp the total
+        out.sim_ns += (tmax - tmin + 1).min(7 * 86400 * refm::NS);
     }
     out.shape = shape;
     let _ = J::Null;
